@@ -22,7 +22,7 @@ SPEC = dict(
                  "a traceback exit counts as 'exits non-zero'; what is asserted is that nothing changed"],
     required=["fault_runs", "faults_at_later_write_position", "fault:pattern", "fault:file-removed", "fault:version",
               "fault:version:auto-increment-rejected",
-              "engine:v2", "engine:v1", "commit_on_runs", "dry_reported_error"],
+              "engine:v2", "engine:v1", "commit_on_runs", "dry_reported_error", "fault:already-new"],
     anchors=[("v2rewrite", "rewrite_files"), ("v1rewrite", "rewrite_files"), ("rewrite", "iter_path_patterns_items"),
              ("cli", "_update"), ("cli", "_try_update")],
     exhaustive={"quick": False, "thorough": False},
@@ -92,6 +92,12 @@ def run_case(ctx, case):
             faults.append(("version", ("auto", auto)))
         for fault in faults:
             run_one(ctx, case, q, good_args, fault, expect_fail=True)
+        if perm == perms[0]:
+            # one file already shows the new version (edited by hand, or left over from an interrupted run): whatever
+            # --dry says about it, the real run has to agree
+            for fn in q.files:
+                if fn != q.cfg_name:
+                    run_one(ctx, case, q, good_args, ("already-new", fn), expect_fail=False)
 
 
 def auto_rejected_args(R, q, tdy):
@@ -132,6 +138,11 @@ def run_one(ctx, case, q, good_args, fault, expect_fail):
         elif kind == "file-removed":
             del files[what]
             pos = q.write_order.index(what)
+        elif kind == "already-new":
+            upd = updated_files(q, good_args)
+            if upd is None or upd.get(what) == files[what]:
+                return None
+            files[what] = upd[what]
         elif kind == "version" and isinstance(what, tuple):
             args = what[1]   # an AUTOMATIC increment whose result the version gate rejects
         elif kind == "version":
@@ -158,6 +169,18 @@ def run_one(ctx, case, q, good_args, fault, expect_fail):
         if not fault:
             return res.exit_code == 0
         kind = fault[0]
+        if kind == "already-new":
+            ctx.count("fault:already-new")
+            changed = harness.diff_snapshots(before, after)
+            ctx.evaluated((len(q.files) - 1, kind, dres.exit_code != 0, "v1" if q.legacy else "v2", bool(case["commit"])))
+            if dres.exit_code != 0 and (changed or res.exit_code == 0):
+                cls = "other:dry_reports_error_but_real_run_changes_files"
+                if any("No patterns matched for file" in e and fault[1] in e for e in dres.errors()) and res.exit_code == 0:
+                    cls = "dry_rejects_file_already_at_new_version"
+                ctx.violation(cls, f"{args}: {fault[1]} already shows the new version; --dry exits {dres.exit_code} "
+                              f"{dres.errors()[-1:]}, the real run exits {res.exit_code} and changes {changed}",
+                              observed=desc(q, fault, res))
+            return None
         ctx.count("fault_runs")
         ctx.count("fault:" + kind)
         if kind == "version" and isinstance(fault[1], tuple):
@@ -196,6 +219,23 @@ def run_one(ctx, case, q, good_args, fault, expect_fail):
         harness.rm_dir(d)
         if fake:
             fake.destroy()
+
+
+_UPD = {}
+
+
+def updated_files(q, good_args):
+    """bytes of every file after the fault-free update (computed once per project by running it in a scratch copy)"""
+    key = id(q)
+    if key not in _UPD:
+        _UPD.clear()
+        d = harness.new_project(q.encoded())
+        try:
+            r = harness.invoke(list(good_args), cwd=d, env={"PATH": "/nonexistent"})
+            _UPD[key] = harness.snapshot(d) if r.exit_code == 0 else None
+        finally:
+            harness.rm_dir(d)
+    return _UPD[key]
 
 
 def desc(q, fault, res):
